@@ -397,7 +397,9 @@ class C16(fw.Property):
                 'rsync', 'svn', 'svn+ssh', 'sftp', 'nfs', 'git', 'git+ssh', 'ws', 'wss', 'itms-services']
         un = list(urllib.parse.uses_netloc)
         assert un[:len(base)] == base and set(un[len(base):]) <= set(aiocoap.message.coap_schemes), "urllib.parse.uses_netloc differs from Model/C16.v"
-        assert not (set(aiocoap.message.coap_schemes) & set(urllib.parse.uses_params)), "a CoAP scheme is in uses_params"
+        # urllib.parse.uses_params is NOT asserted (round 7, seed C16d): a CoAP scheme registered there makes urlparse() cut ";params" off the last
+        # path segment, which set_request_uri never reads -> the corpus URIs with ";" in the last segment (corpus/C16/boundary.json) then disagree with
+        # the model (for which ";" is an ordinary path character) and fail the independent RFC 7252 section 6.4 oracle: a reported failing input, not a crash.
         assert sys.version_info[:2] == (3, 12) and sys.int_info.default_max_str_digits == 4300
 
     # ---------------------------------------------------------------- cases
